@@ -4,4 +4,4 @@ Extraction "../ml/c04.ml" drv_base delete_subscript delete_signature sighash_f_s
   signature_hash signature_for_hash_type_segwit segwit_preimage
   core_get_op core_decodable core_find_and_delete core_push core_script_code_base ser_script_code
   core_signature_hash_legacy bip143_preimage forkid_preimage uint256_one
-  to_core sig_pattern_excluded rewalk_excluded.
+  to_core rewalk_excluded plain_push.
